@@ -482,7 +482,7 @@ def noisy(tokens: Sequence[str], rng: random.Random, final_comment: bool = True)
     if rng.random() < 0.5:
         text = rng.choice(["\n", "  ", "# leading comment\n", "\t"]) + text
     if final_comment and rng.random() < 0.5:
-        text += rng.choice([" # trailing comment without newline", "\n", "   ", "\n# end\n"])
+        text += rng.choice([" # trailing comment without newline", "\n", "   ", "\n# end\n", "#glued trailing comment"])
     return text
 
 
@@ -509,7 +509,13 @@ def expand_aliases(text: str) -> Optional[str]:
         if ref.classify(token) == "marker":
             in_free_text = token in ("DESCRIPTION", "EXAMPLE")
         if token in aliases and not in_free_text:
-            out.extend(aliases[token])
+            # a value may mention a label that was defined after it: substitute until none is left
+            pending = list(aliases[token])
+            rounds = 0
+            while any(item in aliases for item in pending) and rounds < 20:
+                pending = [piece for item in pending for piece in aliases.get(item, [item])]
+                rounds += 1
+            out.extend(pending)
         else:
             out.append(token)
         index += 1
@@ -678,6 +684,15 @@ def regeneration_family() -> List[Dict[str, Any]]:
     ]
     for texts in chains:
         out.append({"fam": "wf", "texts": texts, "mult": [1.0, 1.0]})
+    # an alias value that mentions a label defined later (substitution happens where it is used)
+    out.append({"fam": "wf", "mult": [1.0, 1.0],
+                "texts": ["DEFINE ALPHA AS (a or L1) DEFINE L1 AS b and c " + wrap("ALPHA and d")]})
+    out.append({"fam": "wf", "mult": [1.0, 1.0],
+                "texts": ["DEFINE ALPHA AS (a or L1)", "DEFINE L1 AS b, c " + wrap("minimum(2, [L1, d]) or e"),
+                          wrap("not ALPHA and d", name="r2")]})
+    out.append({"fam": "alias", "mult": [1.0, 1.0],
+                "texts": ["DEFINE ALPHA AS (a or L1) DEFINE L1 AS b and c " + wrap("ALPHA and d")],
+                "other": [wrap("( a or b and c ) and d")]})
     for cond in ("b and not (not a)", "b or not (not minimum(1, [a]))", "a and not (not cds(b and c))",
                  "a and not (not (b or c))", "a and not ((not b))", "a and (not b)", "a and not (b)", "((a or b)) and c",
                  "(a)", "((a))", "not (not a) and b", "a and not (not minscore(b, 5))", "(cds(a and b))",
@@ -822,7 +837,11 @@ def run_shard(shard: Dict[str, Any], run: Any) -> None:
             _report(run, _judge_ill(case), case)
     elif kind == "regen":
         for case in regeneration_family():
-            _report(run, judge(case["texts"], case["mult"]), case)
+            if case["fam"] == "alias":
+                _report(run, metamorphic(case["texts"], case["other"], case["mult"],
+                                         "aliases-are-textual-substitution", False), case)
+            else:
+                _report(run, judge(case["texts"], case["mult"]), case)
     elif kind == "shipped":
         case = {"fam": "shipped"}
         _report(run, judge_shipped(), case)
